@@ -6,7 +6,7 @@
     about [reproduce] hold for ALL of them; the search itself is modelled at set level
     ([search_results]: which (distance, bitmaps) results its phases may leave) and the
     section "The alignment search" states what every such result satisfies. *)
-From CSS Require Import Lib.Base Model.EventLog Model.EventLogAlign Proofs.EventLog Proofs.EventLogAlign.
+From CSS Require Import Lib.Base Model.EventLog Model.EventLogAlign Proofs.EventLog Proofs.EventLogAlign Proofs.EventLogDistance.
 
 (** ** Conservation *)
 
@@ -270,6 +270,83 @@ Theorem C13_unrelated_pair_costs_more :
   forall c e, unrelated c e = true <-> 2 * BIGN < pair_cost c e.
 Proof. exact unrelated_pair_costs_more. Qed.
 Print Assumptions C13_unrelated_pair_costs_more.
+
+(** THE METRIC IN CLOSED FORM.  While the uint64 sum cannot wrap (fewer than 2^30 entries
+    is more than enough), eventAndMeasurementsDistance returns BIGN for every disabled
+    entry of either side plus the pair costs of the enabled entries taken in order; it
+    panics exactly when the bitmaps leave different numbers of entries enabled or two
+    paired digests have different lengths.  [en] / [sk]: the enabled entries / the number
+    of disabled ones. *)
+Theorem C13_distance_closed_form :
+  forall n cs es acc,
+  (length cs + length es <= n)%nat ->
+  0 <= acc -> acc + Z.of_nat n * (2 * BIGN + 2) < W64 ->
+  distance cs es acc =
+    if ((length (en cs) =? length (en es))%nat && lens_ok (en cs) (en es))%bool
+    then Ok (acc + BIGN * (sk cs + sk es) + pcost (en cs) (en es))
+    else Panic.
+Proof. exact distance_closed. Qed.
+Print Assumptions C13_distance_closed_form.
+
+(** so the distance is compositional: the walk compares an enabled simulated event [c] with
+    an enabled recorded event [e] exactly when equally many enabled entries precede them,
+    and disabling both changes the distance by exactly [2 * BIGN - pair_cost c e],
+    whatever the rest of the two logs and bitmaps is *)
+Theorem C13_distance_disable_pair :
+  forall cs1 c cs2 es1 e es2 d,
+  length (en cs1) = length (en es1) ->
+  Z.of_nat (length (cs1 ++ (false, c) :: cs2) + length (es1 ++ (false, e) :: es2)) * (2 * BIGN + 2) < W64 ->
+  distance (cs1 ++ (false, c) :: cs2) (es1 ++ (false, e) :: es2) 0 = Ok d ->
+  distance (cs1 ++ (true, c) :: cs2) (es1 ++ (true, e) :: es2) 0 = Ok (d - pair_cost c e + 2 * BIGN).
+Proof. exact distance_disable_pair. Qed.
+Print Assumptions C13_distance_disable_pair.
+
+(** bitmaps that pair two events agreeing in neither type nor digest are never of minimal
+    distance: the bitmaps that leave both out are strictly cheaper *)
+Theorem C13_unrelated_pair_not_minimal :
+  forall cs1 c cs2 es1 e es2 d,
+  length (en cs1) = length (en es1) ->
+  Z.of_nat (length (cs1 ++ (false, c) :: cs2) + length (es1 ++ (false, e) :: es2)) * (2 * BIGN + 2) < W64 ->
+  unrelated c e = true ->
+  distance (cs1 ++ (false, c) :: cs2) (es1 ++ (false, e) :: es2) 0 = Ok d ->
+  exists d', distance (cs1 ++ (true, c) :: cs2) (es1 ++ (true, e) :: es2) 0 = Ok d' /\ d' < d.
+Proof. exact unrelated_pair_not_minimal. Qed.
+Print Assumptions C13_unrelated_pair_not_minimal.
+
+(** "A MINIMAL RESULT NEVER PAIRS UNRELATED EVENTS WHEN THE BUDGET ALLOWS", for every
+    result the search may leave: if a result pairs a recorded event [e] with a simulated
+    event [c] that agree in neither type nor digest, then the bitmaps that additionally
+    leave out [e] and [c] lie outside the second-phase space the result was taken from
+    (DisabledEventsMaxDistance, or the greedy first phase, did not allow them).
+    Contrapositive: whenever those bitmaps are in the space, no result pairs [c] with [e]. *)
+Theorem C13_search_result_no_unrelated_pair :
+  forall es cs maxdist d p cs1 c cs2 es1 e es2,
+  In (d, p) (search_results es cs maxdist) ->
+  Z.of_nat (length cs + length es) * (2 * BIGN + 2) < W64 ->
+  flag (snd p) cs = cs1 ++ (false, c) :: cs2 ->
+  flag (fst p) es = es1 ++ (false, e) :: es2 ->
+  length (en cs1) = length (en es1) ->
+  unrelated c e = true ->
+  exists d1 p1,
+    In (d1, p1) (argmins (scored es cs (phase1_cands es cs))) /\
+    In p (phase2_space es cs maxdist p1) /\
+    ~ In (bm_of (es1 ++ (true, e) :: es2), bm_of (cs1 ++ (true, c) :: cs2)) (phase2_space es cs maxdist p1).
+Proof. exact search_result_no_unrelated_pair. Qed.
+Print Assumptions C13_search_result_no_unrelated_pair.
+
+(** the hypotheses are satisfiable: with DisabledEventsMaxDistance 0 the result of the
+    example below does pair the replaced entry with an unrelated simulated event *)
+Example C13_unrelated_pair_hypotheses_satisfiable :
+  match w_s3, w_e3 with
+  | [s0; s1; s2], [e0; e1] =>
+      In (3 * BIGN + 1, ([false; false], [false; false; true])) (search_results w_e3 w_s3 0) /\
+      flag [false; false; true] w_s3 = [(false, s0)] ++ (false, s1) :: [(true, s2)] /\
+      flag [false; false] w_e3 = [(false, e0)] ++ (false, e1) :: [] /\
+      length (en [(false, s0)]) = length (en [(false, e0)]) /\
+      unrelated s1 e1 = true
+  | _, _ => False
+  end.
+Proof. vm_compute. repeat split; try reflexivity. left. reflexivity. Qed.
 
 (** one entry deleted and another one replaced (foreign type, fresh digest), three simulated
     events: with DisabledEventsMaxDistance 1 the only result leaves the replaced entry out on
